@@ -63,6 +63,8 @@ func main() {
 			}
 		case "check":
 			code = cmdCheck(os.Args[2:])
+		case "replay":
+			code = cmdReplay(os.Args[2:])
 		default:
 			fmt.Fprintln(os.Stderr, "unknown command", os.Args[1])
 			code = 2
